@@ -621,7 +621,8 @@ int main(int argc, char **argv) {
                 first ? "" : ",\n", jesc(p.name).c_str(), jesc(p.describe).c_str(), p.bound, s.completed_bound, (unsigned long long)s.schedules, (unsigned long long)s.steps,
                 (unsigned long long)s.contended, (unsigned long long)s.parked, (unsigned long long)s.max_points, (unsigned long long)s.max_threads);
         for (size_t i = 0; i < s.per_bound.size(); i++) fprintf(f, "%s%llu", i ? "," : "", (unsigned long long)s.per_bound[i]);
-        fprintf(f, "], \"per_bound_contended\": [");
+        bool complete = s.per_bound.size() >= 2 && s.completed_bound == (int)s.per_bound.size() - 1 && s.per_bound[s.per_bound.size() - 1] == s.per_bound[s.per_bound.size() - 2];
+        fprintf(f, "], \"all_schedules_explored\": %s, \"per_bound_contended\": [", complete ? "true" : "false");
         for (size_t i = 0; i < s.per_bound_contended.size(); i++) fprintf(f, "%s%llu", i ? "," : "", (unsigned long long)s.per_bound_contended[i]);
         fprintf(f, "], \"default_schedule\": \"%s\", \"last_schedule\": \"%s\"}", s.root_schedule.c_str(), s.last_schedule.c_str());
         first = false;
